@@ -1123,3 +1123,194 @@ class C07(SampleCheck):
         self.evaluations += count
         self.count("dm2numpy-shapes", count)
         self.signatures.add("dm2numpy")
+
+
+@register
+class C08(SampleCheck):
+    pid = "C08"
+    slices = ["refined-sampling", "nesting-on-the-implementation", "sampler", "low-degree-exactness"]
+
+    def explanation(self):
+        return ("theorems: RK4/Euler dense output starts at the step start state, ends at the step end state, has the ODE right-hand "
+                "side as initial slope; quadrature polynomial ends at xq+qf; exact for state-independent affine-in-time (rk) / constant "
+                "(euler) right-hand sides at every local time; collocation coefficients p_i/h^i are the power basis of s -> p(s/h); low() "
+                "index properties; sampler = the same step polynomial at t - t_m with the enclosing interval's control. correspondence: "
+                "ocp.sample(e,'integrator',refine=r) r=1..7 vs model for MS/SS rk/euler and DC; nesting checked on rockit's own outputs; "
+                "ocp.sampler Function vs model at grid and interior times; exactness on generated low-degree problems")
+
+    def gen(self, extra=None):
+        prof = {'methods': [('ms', 'rk'), ('ms', 'euler'), ('ss', 'rk'), ('ss', 'euler'), ('dc', 'rk'), ('dc', 'rk')],
+                'grids': ['uniform', 'geometric', 'geometric_local', 'data', 'free'], 'horizon': ['num', 'freeT', 'param'],
+                'obj_kinds': ['at_tf', 'integral'], 'ncons': (0, 0), 'features': {'qstate': 0.4, 'dae': 0.4, 'pc': 0.6, 'pcp': 0.5, 'vc': 0.4},
+                'Ns': [1, 2, 3, 4], 'Ms': [1, 2, 3], 'degrees': [1, 2, 3, 4, 5]}
+        if extra:
+            prof.update(extra)
+        return G.gen_case(self.rng, prof)
+
+    def correspondence(self):
+        self.refine_slice()
+        self.sampler_slice()
+        self.exactness_slice()
+
+    def refine_slice(self):
+        import casadi as ca
+        n = 30 if self.tier == 'quick' else 400
+        for _ in range(n):
+            desc = self.gen()
+            try:
+                b = B.build(desc)
+            except Exception as e:
+                self.slice_ok["refined-sampling"] = False
+                self.violation("rockit raised on a generated case: %r" % (e,), {"desc": desc}, {"kind": "exception"})
+                return
+            r_ = self.rng.randint(1, 7)
+            at = sample_atoms(desc, 'integrator', for_refine=True)
+            if desc['method']['kind'] != 'dc' and desc['nq']:
+                at = at + [('xq', 0)]
+            jobs = [('integrator', {'refine': r_}, 'sample fine %d' % r_, G.poly(self.rng, at, (1, 3), 2)) for _k in range(2)]
+            try:
+                msg = self.sample_compare(desc, b, jobs)
+            except Exception as e:
+                msg = "refined sampling raised %s: %s" % (type(e).__name__, str(e)[:300])
+            self.record_case(desc, True, {"method": desc['method'], "refine": r_, "expr": Mo.E.to_tokens(jobs[0][3])})
+            self.count("refine:%d" % r_)
+            if msg:
+                self.slice_ok["refined-sampling"] = False
+                self.violation(msg, {"desc": desc, "refine": r_}, {"kind": "refine", "method": desc['method']['kind']})
+                return
+            # nesting, on rockit's own outputs: every r-th refined entry is the integrator-grid entry,
+            # every M-th integrator entry is the control-grid entry (times and state values)
+            with B.quiet():
+                X = b.Xsym
+                tc, xc = b.ocp.sample(X, grid='control')
+                ti, xi = b.ocp.sample(X, grid='integrator')
+                tf_, xf_ = b.ocp.sample(X, grid='integrator', refine=r_)
+            try:
+                W = Walker(ca.Function('n', [b.opti.x, b.opti.p], [ca.vec(ca.MX(tc)), xc, ca.vec(ca.MX(ti)), xi, ca.vec(ca.MX(tf_)), xf_]))
+            except RuntimeError as ex:
+                if 'are free' in str(ex):
+                    continue        # inactive symbol: not part of opti.x / opti.p (CasADi)
+                raise
+            xv, pv, fv = En.rand_point(self.rng, b)
+            try:
+                o = W([xv, pv])
+            except (ZeroDivisionError, OverflowError):
+                continue
+            nx = sum(desc['states'])
+            N, M = desc['method']['N'], desc['method']['M']
+            bad = None
+            for m in range(N * M):         # the last refined point is the end of the last polynomial (feasible points only)
+                if not close(o[4][m * r_][0], o[2][m][0], max(o[2][m][1], 1.0)):
+                    bad = "refined time[%d] != integrator time[%d]" % (m * r_, m)
+                for c_ in range(nx):
+                    if not close(o[5][(m * r_) * nx + c_][0], o[3][m * nx + c_][0], max(o[3][m * nx + c_][1], o[5][(m * r_) * nx + c_][1], 1.0)):
+                        bad = "refined state sample %d differs from integrator-grid sample %d" % (m * r_, m)
+            for k in range(N + 1):
+                if not close(o[2][k * M][0], o[0][k][0], max(o[0][k][1], 1.0)):
+                    bad = "integrator time[%d] != control time[%d]" % (k * M, k)
+                for c_ in range(nx):
+                    if not close(o[3][(k * M) * nx + c_][0], o[1][k * nx + c_][0], max(o[1][k * nx + c_][1], 1.0)):
+                        bad = "integrator-grid state sample %d differs from control-grid sample %d" % (k * M, k)
+            self.count("nesting-checked")
+            if bad:
+                self.slice_ok["nesting-on-the-implementation"] = False
+                self.violation("refined / integrator / control samples are not nested: " + bad, {"desc": desc, "refine": r_, "x": xv, "p": pv}, {"kind": "nesting"})
+                return
+
+    def sampler_slice(self):
+        import casadi as ca
+        import numpy as np
+        n = 12 if self.tier == 'quick' else 150
+        for _ in range(n):
+            desc = self.gen({'features': {'qstate': 0.0, 'dae': 0.3, 'p': 0.0, 'pc': 0.0, 'pcp': 0.0, 'v': 0.0, 'vc': 0.0, 'vcp': 0.0},
+                             'horizon': ['num'], 'grids': ['uniform', 'geometric', 'data']})
+            try:
+                b = B.build(desc)
+                e = G.poly(self.rng, sample_atoms(desc, 'integrator', for_sampler=True), (1, 3), 2)
+                with B.quiet():
+                    f = b.ocp.sampler('smp', [Mo.E.to_casadi(e, b.sym_base)])
+            except Exception as ex:
+                self.slice_ok["sampler"] = False
+                self.violation("ocp.sampler raised %s: %s" % (type(ex).__name__, str(ex)[:300]), {"desc": desc}, {"kind": "sampler-exception"})
+                return
+            xv, pv, fv = En.rand_point(self.rng, b)
+            try:
+                phys = B.eval_phys(b, xv, pv, fv)
+            except (ZeroDivisionError, OverflowError):
+                continue
+            gist = [float(v) for v in xv] + [float(v) for v in pv]
+            t0 = desc['t0'][1]; T = desc['T'][1]
+            tg = [v for c_ in phys['tintg'] for v in c_]
+            times = [t0, t0 + T, t0 + T * Fr(self.rng.randint(1, 15), 16), t0 + T * Fr(self.rng.randint(1, 31), 32)]
+            # interior grid times: exactly only where the trajectory is continuous at every point (SingleShooting);
+            # otherwise just after the grid time (in floats `low` may fall on either side of a discontinuity)
+            for _k in range(2):
+                tm = self.rng.choice(tg[:-1])
+                times.append(tm if desc['method']['kind'] == 'ss' and desc['method']['grid']['kind'] == 'uniform' else tm + T * Fr(1, 2 ** 20))
+            times = [t for t in times if t <= t0 + T]
+            self.driver.send(Mo.desc_lines(desc)); self.driver.send(Mo.point_lines(desc, phys))
+            self.record_case(desc, True, {"method": desc['method'], "sampler_expr": Mo.E.to_tokens(e), "times": [str(t) for t in times[:3]]})
+            for t in times:
+                _, mv = parse_samples(self.driver.run("sampler %s %s" % (Mo.R(t), Mo.E.to_tokens(e))))
+                got = float(f(gist, float(t)))
+                want = float(mv[0])
+                self.count("sampler-times")
+                if not (abs(got - want) <= 1e-7 * max(1.0, abs(want))):
+                    self.slice_ok["sampler"] = False
+                    self.violation("sampler(e)(gist, t=%s) = %r, the step polynomial of the enclosing interval gives %r" % (t, got, want),
+                                   {"desc": desc, "t": t, "x": xv, "p": pv, "expr": e}, {"kind": "sampler", "method": desc['method']['kind']})
+                    return
+
+    def exactness_slice(self):
+        """refined samples are exact when the true solution is a polynomial of low degree"""
+        import casadi as ca
+        cases = []
+        # state-independent right-hand sides: x' = a + b t (rk: degree-2 solution), x' = a (euler), degree d for collocation
+        for meth, intg, deg in [('ms', 'rk', 2), ('ss', 'rk', 2), ('ms', 'euler', 1), ('dc', 'rk', None)]:
+            cases.append((meth, intg, deg, False))
+        cases.append(('ms', 'rk', 2, True))      # state-dependent rhs with a quadratic solution (literal reading of the clause)
+        for meth, intg, deg, statedep in cases:
+            d = B.default_desc()
+            d['states'] = [1]
+            dd = self.rng.choice([2, 3, 4]) if meth == 'dc' else 2
+            d['method'] = {'kind': meth, 'N': 2, 'M': self.rng.choice([1, 2]), 'intg': intg, 'degree': dd, 'scheme': self.rng.choice(['radau', 'legendre']),
+                           'grid': {'kind': self.rng.choice(['uniform', 'geometric']), 'growth': 2, 'local': True}}
+            if d['method']['grid']['kind'] == 'uniform':
+                d['method']['grid'] = {'kind': 'uniform'}
+            degsol = deg if deg is not None else dd
+            # solution x(t) = sum c_i t^i ; rhs = x'(t) (+ (x - x(t)) if state dependent)
+            cs = [Fr(self.rng.randint(-4, 4), 2) for _ in range(degsol + 1)]
+            if cs[-1] == 0:
+                cs[-1] = Fr(1)
+            tp = lambda i: ('pow', ('t',), i) if i > 1 else (('t',) if i == 1 else Mo.E.C(1))
+            rhs = Mo.E.C(0)
+            for i in range(1, degsol + 1):
+                rhs = ('+', rhs, ('*', Mo.E.C(cs[i] * i), tp(i - 1)))
+            sol = Mo.E.C(cs[0])
+            for i in range(1, degsol + 1):
+                sol = ('+', sol, ('*', Mo.E.C(cs[i]), tp(i)))
+            if statedep:
+                rhs = ('+', rhs, ('-', ('x', 0), sol))
+            d['ode'] = [rhs]
+            d['t0'] = ('num', Fr(1, 2)); d['T'] = ('num', Fr(2))
+            d['phs'] = [('at_tf', ('x', 0)), ('at_t0', ('x', 0))]; d['obj'] = ('ph', 0)
+            x_init = cs[0] + sum(cs[i] * Fr(1, 2) ** i for i in range(1, degsol + 1))
+            d['cons'] = [{'rel': 'eq', 'a': [('ph', 1)], 'b': [Mo.E.C(x_init)], 'grid': 'point'}]
+            b = B.build(d, transcribe=False)
+            with B.quiet():
+                r_ = self.rng.randint(2, 5)
+                b.ocp.solver('ipopt', {'ipopt.print_level': 0, 'print_time': False, 'ipopt.sb': 'yes', 'ipopt.tol': 1e-12})
+                try:
+                    s_ = b.ocp.solve()
+                    ts, xs = s_.sample(b.states[0], grid='integrator', refine=r_)
+                except Exception as ex:
+                    self.notes.append("exactness case skipped: %r" % (ex,))
+                    continue
+            self.evaluations += 1
+            self.count("exactness:%s-%s%s" % (meth, intg, "-state-dependent" if statedep else ""))
+            exact = [float(sum(cs[i] * Fr(float(t)) ** i for i in range(degsol + 1))) for t in ts]
+            err = max(abs(a - b_) for a, b_ in zip(xs, exact))
+            if err > 1e-7:
+                self.slice_ok["low-degree-exactness"] = False
+                self.violation("refined samples are not exact although the true solution is a polynomial of degree %d: max error %.3g (%s, %s, state-dependent rhs: %s)" %
+                               (degsol, err, meth, intg, statedep), {"desc": d, "coeffs": cs}, {"kind": "exactness", "scheme": intg if meth != 'dc' else 'collocation', "state_dependent_rhs": statedep})
